@@ -231,7 +231,7 @@ def run_case(case, ctx):
 		if done >= (12 if ctx.tier == 'quick' else 150) and not case.get('force'):
 			return {'nontrivial': False, 'classes': ['fresh_process_skipped(budget)']}
 		ctx.cache['c07_fresh_done'] = done + 1
-		res = freshproc.run_calls(calls)
+		res = freshproc.run_calls(calls, flags=case.get('flags', []))
 		for (name, arg, extra), r in zip(calls, res):
 			b = arg.encode('latin-1')
 			if name == 'kmer_to_index':
@@ -249,7 +249,7 @@ def run_case(case, ctx):
 					raise Violation('fresh_not_rejected', f'first calls of a fresh process {calls}: {name}({arg!r}) returned {r[1]} instead of raising', case)
 			elif r != ['ok', exp]:
 				raise Violation('fresh_wrong', f'first calls of a fresh process {calls}: {name}({arg!r}) gave {r}, expected {exp!r}', case)
-		return {'nontrivial': True, 'classes': ['fresh_process', 'first_call=' + calls[0][0]]}
+		return {'nontrivial': True, 'classes': ['fresh_process', 'first_call=' + calls[0][0], 'interpreter_flags=' + ' '.join(case.get('flags', []))]}
 	if kind == 'too_long':
 		x = case['kmer'].encode('ascii')
 		_expect_reject(x, gk, 'longer than 32')
@@ -292,6 +292,6 @@ def strategy(tier):
 		st.tuples(st.just('index_to_kmer'), st.integers(0, 4 ** 6 - 1).map(str), st.just(6)).map(list),
 		st.tuples(st.just('calc_signature'), st.text(alphabet='ACGT', min_size=5, max_size=40), st.sampled_from([[3, 'A'], [4, 'AT'], [2, 'C']])).map(list),
 	)
-	fresh = st.lists(call, min_size=1, max_size=4).map(lambda cs: {'kind': 'fresh_process', 'calls': cs})
+	fresh = st.tuples(st.lists(call, min_size=1, max_size=4), st.sampled_from([[], ['-O'], [], ['-OO'], ['-X', 'dev']])).map(lambda t: {'kind': 'fresh_process', 'calls': t[0], 'flags': t[1]})
 	rare = st.sampled_from([False] * (170 if tier == 'quick' else 80) + [True] + [False] * (130 if tier == 'quick' else 70))     # sampled_from is close to uniform (integers() favours small values)
 	return rare.flatmap(lambda f: fresh if f else st.one_of(long_kmer, long_kmer, index, rc, too_long))
